@@ -266,7 +266,7 @@ func c16GRPC(c *ctx) {
 	os.WriteFile(filepath.Join(certDir, "l-key.pem"), lcrt.KeyPEM, 0o644)
 	grpcAddr := fmt.Sprintf("127.0.0.1:%d", freePort())
 	grpcsAddr := fmt.Sprintf("127.0.0.1:%d", freePort())
-	rg, err := newRig(c, "grpc", []string{"-proxy.addr", grpcAddr + ";proto=grpc," + grpcsAddr + ";proto=grpcs;cs=cs1", "-proxy.cs", "cs=cs1;type=path;cert=" + certDir, "-proxy.grpcshutdowntimeout", "1s", "-proxy.grpcmaxrxmsgsize", "16777216", "-proxy.grpcmaxtxmsgsize", "16777216", "-log.level", "WARN"})
+	rg, err := newRig(c, "grpc", []string{"-proxy.addr", grpcAddr + ";proto=grpc," + grpcsAddr + ";proto=grpcs;cs=cs1", "-proxy.cs", "cs=cs1;type=path;cert=" + certDir, "-proxy.grpcshutdowntimeout", "1s", "-proxy.grpcmaxrxmsgsize", "16777216", "-proxy.grpcmaxtxmsgsize", "8388608", "-log.level", "DEBUG"}) // DEBUG: the pool's clean-up pass announces itself in the log (phase 4 times itself by it)
 	if err != nil {
 		c.R.Inconcl("cannot start fabio: %v", err)
 		return
@@ -315,7 +315,7 @@ func c16GRPC(c *ctx) {
 	}
 	defer ccs.Close()
 	var seq atomic.Int64
-	call := func(r *rand.Rand) {
+	call := func(r *rand.Rand, force ...string) {
 		id := fmt.Sprintf("g%d", seq.Add(1))
 		sc := &c16Script{Header: c16MD(r, "h-"), Trailer: c16MD(r, "t-"), Code: codes.Code(choose(r, []int{0, 0, 0, 0, 1, 2, 3, 4, 5, 6, 7, 8, 9, 10, 11, 12, 13, 14, 15, 16}))}
 		if sc.Code != codes.OK {
@@ -342,6 +342,24 @@ func c16GRPC(c *ctx) {
 			sc.Msgs = nil
 		}
 		route := choose(r, []string{"alpha", "beta", "gamma", "gamma-wronghost", "none", "delta"})
+		if len(force) > 0 {
+			route = force[0]
+		}
+		if len(force) > 1 && force[1] == "hold" {
+			// the backend answers only after 2.5s: the call is in flight for that long
+			gate := make(chan struct{})
+			sc.Gate = gate
+			time.AfterFunc(2500*time.Millisecond, func() { close(gate) })
+		}
+		if r.Intn(40) == 0 && nsend > 0 {
+			// a request message above the configured send limit (8 MiB) and below the receive limit (16 MiB): the
+			// receive limit is the one that governs what callers may send
+			b := make([]byte, 9<<20+r.Intn(3<<20))
+			r.Read(b)
+			big, _ := proto.MarshalOptions{Deterministic: true}.Marshal(wrapperspb.Bytes(b))
+			send[r.Intn(len(send))] = big
+			c.R.Count("requests_between_tx_and_rx_limit", 1)
+		}
 		method, dsthost, wantBackend := "", "", ""
 		switch route {
 		case "alpha":
@@ -549,7 +567,7 @@ func c16GRPC(c *ctx) {
 		}
 		dBefore := delta.ln.accepted.Load()
 		for i := 0; i < 6; i++ {
-			call(r0)
+			call(r0, "delta") // gamma is out of the table at this point
 		}
 		if delta.calls.Load() > 0 && dBefore >= 1 && (delta.ln.accepted.Load() > dBefore || delta.ln.open.Load() == 0) {
 			c.R.Violate("c16:connection-dropped-although-backend-in-table", fmt.Sprintf("the grpcs backend stayed in the table, yet after two cleanup rounds fabio opened a new connection to it (%d accepted, was %d; %d open)", delta.ln.accepted.Load(), dBefore, delta.ln.open.Load()), nil)
@@ -573,5 +591,54 @@ func c16GRPC(c *ctx) {
 		if g.calls.Load() > 0 && g.ln.accepted.Load() == before && g.ln.open.Load() == 0 {
 			c.R.Violate("c16:no-fresh-connection", "gamma was re-added and called but no new connection was opened", nil)
 		}
+	}
+	// phase 4: a short absence. The backend leaves the table for just over one clean-up interval (5s) and returns
+	// before or shortly after its old connection has been shut down: from then on it is in the table and healthy, and
+	// every call to it must be served, whatever the pool still holds.
+	for h := 0; h < c.scale(c.pick(1, 3)); h++ {
+		logAt := int64(0)
+		if fi, err := os.Stat(rg.proc.LogPath); err == nil {
+			logAt = fi.Size()
+		}
+		reg(false)
+		if err := rg.barrier(); err != nil {
+			c.R.Inconcl("barrier: %v", err)
+			return
+		}
+		// wait for the pool's next clean-up pass (it logs the connection it condemns), at most 6s
+		sawCleanup := false
+		for dl := time.Now().Add(6 * time.Second); time.Now().Before(dl) && !sawCleanup; time.Sleep(20 * time.Millisecond) {
+			if b, err := os.ReadFile(rg.proc.LogPath); err == nil && int64(len(b)) > logAt {
+				sawCleanup = strings.Contains(string(b[logAt:]), "cleaning up connection to") && strings.Contains(string(b[logAt:]), backs["gamma"].ln.Addr().String())
+			}
+		}
+		if sawCleanup {
+			c.R.Count("absences_timed_by_cleanup_pass", 1)
+		} else {
+			time.Sleep(time.Duration(h) * 700 * time.Millisecond)
+		}
+		reg(true)
+		if err := rg.barrier(); err != nil {
+			c.R.Inconcl("barrier: %v", err)
+			return
+		}
+		rr := c.rng(int64(1800 + h))
+		// calls that stay in flight across the moment the old connection is shut down
+		var hwg sync.WaitGroup
+		for k := 0; k < 3; k++ {
+			hwg.Add(1)
+			go func(k int) {
+				defer hwg.Done()
+				time.Sleep(time.Duration(k) * 150 * time.Millisecond)
+				call(c.rng(int64(1850+h*10+k)), "gamma", "hold")
+			}(k)
+		}
+		defer hwg.Wait()
+		for end := time.Now().Add(6500 * time.Millisecond); time.Now().Before(end); {
+			call(rr, "gamma")
+			c.R.Count("calls_after_short_absence", 1)
+			time.Sleep(80 * time.Millisecond)
+		}
+		c.R.Nontrivial(fmt.Sprintf("short-absence-%d", h))
 	}
 }
